@@ -44,7 +44,7 @@ def kf_for(inst, findings):
 def run_instance(inst, prop, findings, kfdir, rundir, say):
     """returns a record dict"""
     t0 = time.time()
-    rec = dict(id=inst.id, entry=inst.entry, harness=inst.harness, tus=inst.tus, defs=inst.defs, stubs=inst.stubs,
+    rec = dict(id=inst.id, entry=inst.entry, harness=inst.harness, tus=inst.tus, defs=inst.defs, stubs=inst.stubs + ["noop:" + x for x in inst.noops],
                bounds=inst.bounds, inputs=inst.inputs, unwind=inst.unwind, unwindset=inst.unwindset,
                status="ok", failures=[], known=[], notes=[], queries=0, solver_s=0.0)
     wd = os.path.join(rundir, inst.id.replace("/", "_"))
@@ -147,8 +147,10 @@ def check(prop, tier, only=None, extra_checks=None):
     rundir = os.path.join(V.OUT, "run", "%s-%s-%d" % (prop, tier, os.getpid()))
     os.makedirs(rundir, exist_ok=True)
     def in_tier(i):
-        if tier == "thorough":
-            return True
+        if i.tier == "experimental":      # kept for development (--tier experimental), part of no registered command
+            return tier == "experimental"
+        if tier in ("thorough", "experimental"):
+            return tier == "thorough"
         if i.tier != "quick":
             return False
         return i.props[0] == prop or (prop in (i.quick_also if i.quick_also is not None else default_quick_also(i)))
@@ -161,7 +163,7 @@ def check(prop, tier, only=None, extra_checks=None):
     tus = sorted({t for i in insts for t in i.tus})
     errs = []
     with ThreadPoolExecutor(max_workers=V.NCPU) as ex:
-        futs = {ex.submit(V.compile_bc, os.path.join(V.REPO, t), (), t.endswith(".c")): t for t in tus}
+        futs = {ex.submit(V.compile_bc, os.path.join(V.REPO, t), V.TU_DEFS.get(t, ()), t.endswith(".c")): t for t in tus}
         for f in as_completed(futs):
             try:
                 f.result()
